@@ -44,6 +44,7 @@ func init() {
 			{ID: "C18.R21", Floor: 4, Run: noTargetNoRelationFlag, Text: "without a target no relation is claimed (= C05.R17)"},
 			{ID: "C18.R22", Floor: 10, Run: freshRelationFilterPerCall, Text: "generic FilterN.Filter hands out a relation filter of its own for a per-call target: the target given to a call is never written into a struct owned by the generic filter and handed out by every call"},
 			{ID: "C18.R23", Floor: 1, Run: compileKeyedByWorld, Text: "the compilation is keyed by world: the early return of Compile is taken only where the world argument equals the world recorded at the last compilation (or the filter is registered)"},
+			{ID: "C18.R24", Floor: 10, Run: compiledFiltersFresh, Text: "handed-out filters do not point into re-compiled state: no pointer stored as the compiled filter, or as the inner filter of a per-call RelationFilter, is the address of a struct embedded in the generic filter; Compile allocates them anew"},
 		},
 	})
 }
@@ -649,6 +650,14 @@ func c18r7(p *Prog, r *Reporter) {
 					if fa, ok := mi.X.(*ssa.FieldAddr); ok {
 						subs[fieldName(fa.X.Type(), fa.Field)] = deref(fa.Type())
 					}
+					// a sub-filter held through a pointer field: the pointer loaded from the receiver's field
+					if ld, ok := mi.X.(*ssa.UnOp); ok && ld.Op == token.MUL {
+						if fa, ok := ld.X.(*ssa.FieldAddr); ok && typeName(fa.X.Type()) == "compiledQuery" {
+							if _, isPtr := ld.Type().Underlying().(*types.Pointer); isPtr {
+								subs[fieldName(fa.X.Type(), fa.Field)] = deref(ld.Type())
+							}
+						}
+					}
 				}
 			}
 			addSub(st.Val)
@@ -842,6 +851,19 @@ func c18r10(p *Prog, r *Reporter) {
 				if pth := apath(ld.X); strings.HasSuffix(pth, ".maskFilter.Include") {
 					return "B", nil
 				}
+				// the sub-filter held through a pointer field (allocated per compilation): the loaded pointer
+				if fa, ok := ld.X.(*ssa.FieldAddr); ok && typeName(fa.X.Type()) == "compiledQuery" {
+					if _, isPtr := ld.Type().Underlying().(*types.Pointer); isPtr {
+						switch fieldName(fa.X.Type(), fa.Field) {
+						case "maskFilter":
+							return "A", nil
+						case "relationFilter":
+							return "C", nil
+						case "cachedFilter":
+							return "D", nil
+						}
+					}
+				}
 			}
 			return "?", x
 		}
@@ -994,6 +1016,14 @@ func c18r10(p *Prog, r *Reporter) {
 				bad, good := "", ""
 				for _, s2 := range mks {
 					mk := callOf(s2.Val)
+					if al, ok := s2.Val.(*ssa.Alloc); ok && mk == nil {
+						// &local, where local := NewRelationFilter(...) (a relation filter allocated per compilation)
+						for _, ref := range *al.Referrers() {
+							if s3, ok := ref.(*ssa.Store); ok && s3.Addr == ssa.Value(al) {
+								mk = callOf(s3.Val)
+							}
+						}
+					}
 					if mk == nil || mk.Common().StaticCallee() == nil || cname(mk.Common().StaticCallee()) != "NewRelationFilter" {
 						bad = "the relation filter is assigned something other than NewRelationFilter(...)"
 						continue
